@@ -24,6 +24,7 @@ The statements are FALSE of the code as it was (`coded`): one `decide`d countere
 -/
 import WntrModel.Lemmas.RegistryStepAll
 import WntrModel.Lemmas.RegistryViews
+import WntrModel.Lemmas.OrderedSetLemmas
 
 namespace Wntr.Registry
 set_option linter.unusedVariables false
@@ -74,12 +75,17 @@ theorem inv_step (s : Reg) (op : Op) (h : InvR s) : InvR (step repaired s op).1 
     · exact removeFireR_invR s n p i hi hk h
     · exact removePatternR_invR _ p hu (removeFireR_invR s n p i hi hk h)
   | addLeak n a b =>
-    obtain ⟨h1, h2, h3, h4, h5, h6, h7⟩ := addLeak_frame s n a b
-    exact invR_congr s _ h1 h2 h3 h4 h5 h6 h7 h
+    rcases addLeak_cases s n a b with e | ⟨c, e⟩ <;> simp only [step, e]
+    · exact h
+    · exact invR_congr s _ rfl rfl rfl rfl rfl rfl rfl h
   | removeLeak n =>
     rcases removeLeak_cases s n with e | e <;> simp only [step, e]
     · exact h
     · exact invR_congr s _ rfl rfl rfl rfl rfl rfl rfl h
+  | setSourceNode n nd =>
+    rcases setSourceNode_cases s n nd with e | ⟨si, hi, e⟩ <;> simp only [step, e]
+    · exact h
+    · exact setSourceNodeR_invR s n nd si hi h
   | addTank n c =>
     rcases addTank_cases s n c with e | ⟨hn, e⟩ <;> simp only [step, e]
     · exact h
@@ -189,19 +195,17 @@ theorem inv_history (ops : List Op) : Inv (run repaired init ops) := (inv_reacha
 
 /-! ### an operation that does not succeed changes nothing -/
 
-/-- **not_ok_unchanged**: an operation that is refused or raises leaves the model exactly as it was.  The one exception is
-`add_leak` with both a start and an end time on a node whose END control name is taken (left behind by an earlier node of that
-name): it raises after the start control was added — the views still agree (`inv_step`), only the control list grew. -/
-theorem not_ok_unchanged (s : Reg) (op : Op) (hl : ∀ n a b, op ≠ .addLeak n a b) (h : (step repaired s op).2 ≠ .ok) :
-    (step repaired s op).1 = s := by
+/-- **not_ok_unchanged**: an operation that is refused or raises leaves the model exactly as it was -/
+theorem not_ok_unchanged (s : Reg) (op : Op) (h : (step repaired s op).2 ≠ .ok) : (step repaired s op).1 = s := by
   cases op with
   | addJunction n p o => rcases addJunction_cases s n p o with e | ⟨_, e⟩ <;> simp_all [step]
   | addDemand n p o => rcases addDemand_cases s n p o with e | ⟨_, _, _, e⟩ <;> simp_all [step]
   | delDemand n idx => rcases delDemand_cases s n idx with e | ⟨_, _, _, e⟩ <;> simp_all [step]
   | addFire n p => rcases addFire_cases s n p with e | ⟨_, _, _, _, e⟩ <;> simp_all [step]
   | removeFire n => rcases removeFire_cases s n with e | e | ⟨_, _, _, _, e | ⟨_, e⟩⟩ <;> simp_all [step]
-  | addLeak n a b => exact absurd rfl (hl n a b)
+  | addLeak n a b => rcases addLeak_cases s n a b with e | ⟨_, e⟩ <;> simp_all [step]
   | removeLeak n => rcases removeLeak_cases s n with e | e <;> simp_all [step]
+  | setSourceNode n nd => rcases setSourceNode_cases s n nd with e | ⟨_, _, e⟩ <;> simp_all [step]
   | addTank n c => rcases addTank_cases s n c with e | ⟨_, e⟩ <;> simp_all [step]
   | addReservoir n p => rcases addReservoir_cases s n p with e | ⟨_, e⟩ <;> simp_all [step]
   | addPipe n a b => rcases addPipe_cases s n a b with e | ⟨_, _, _, e⟩ <;> simp_all [step]
@@ -227,14 +231,8 @@ theorem not_ok_unchanged (s : Reg) (op : Op) (hl : ∀ n a b, op ≠ .addLeak n 
   | setHeadlossCurve l c => rcases setHeadlossCurve_cases s l c with e | ⟨_, _, _, e⟩ <;> simp_all [step]
 
 /-- **refused_leaves_unchanged**: a refused removal leaves the model unchanged -/
-theorem refused_leaves_unchanged (s : Reg) (op : Op) (h : (step repaired s op).2 = .refused) : (step repaired s op).1 = s := by
-  by_cases hl : ∀ n a b, op ≠ .addLeak n a b
-  · exact not_ok_unchanged s op hl (by rw [h]; decide)
-  · -- `add_leak` is never answered `refused`
-    exfalso
-    simp only [ne_eq, not_forall, not_not] at hl
-    obtain ⟨n, a, b, rfl⟩ := hl
-    exact addLeak_not_refused s n a b h
+theorem refused_leaves_unchanged (s : Reg) (op : Op) (h : (step repaired s op).2 = .refused) : (step repaired s op).1 = s :=
+  not_ok_unchanged s op (by rw [h]; decide)
 
 example : (step repaired (run repaired init [.addJunction 1 none false, .addJunction 2 none false, .addPipe 3 1 2]) (.removeNode 1 true false)).2
     = .refused := by decide
@@ -484,5 +482,55 @@ example : (run repaired init [.addJunction 1 none false, .addFire 1 7, .addDeman
   decide
 example : (step repaired (run repaired init [.addJunction 1 none false, .addLeak 1 true true]) (.removeNode 1 false false)).2 = .refused := by
   decide
+
+/-! ### round 4 -/
+
+/-- the tree before fixes/C14-add-leak-checks-control-names-first: `add_leak(start, end)` raises after the start control was added -/
+theorem round3_cex_add_leak_partial :
+    (step round3 (run round3 init [.addJunction 1 none false, .addLeak 1 false true]) (.addLeak 1 true true)).2 = .error ∧
+    (step round3 (run round3 init [.addJunction 1 none false, .addLeak 1 false true]) (.addLeak 1 true true)).1.controls ≠
+      (run round3 init [.addJunction 1 none false, .addLeak 1 false true]).controls := by
+  decide
+
+/-- the tree before fixes/C14-source-node-name-setter-moves-usage: the injection node can be removed from under the source -/
+theorem round3_cex_source_node_setter :
+    ¬ Inv (run round3 init [.addJunction 1 none false, .addJunction 2 none false, .addSource 3 1 none, .setSourceNode 3 2]) := by
+  decide
+
+/-- KNOWN FINDING (no small repair: a TimeSeries does not know its owner): re-pointing a demand entry / a source strength
+through `TimeSeries.pattern_name = ...` moves no usage record, so the invariant does not survive these two raw operations -/
+theorem raw_set_demand_pattern_breaks_inv :
+    InvR (run repaired init [.addPattern 9, .addJunction 1 none false]) ∧
+    ¬ Inv (setDemandPatternRaw (run repaired init [.addPattern 9, .addJunction 1 none false]) 1 0 (some 9)).1 := by
+  refine ⟨inv_reachable _ _ inv_init, ?_⟩
+  decide
+
+theorem raw_set_source_pattern_breaks_inv :
+    ¬ Inv (run repaired (setSourcePatternRaw (run repaired init [.addPattern 9, .addJunction 1 none false, .addSource 2 1 (some 9)]) 2 none).1
+      [.removeSource 2]) := by
+  decide
+
+/-! ### what the OrderedSet / OrderedDict theorems discharge
+
+The registry model represents every `OrderedSet` (typed sets, usage records) by a list and every `OrderedDict` by an association
+list.  `Lemmas/OrderedSetLemmas.lean` proves, for the class `wntr.utils.ordered_set.OrderedSet` transliterated method by method
+(Model/OrderedSetModel.lean, tied to the real class by a differential run):
+  * `OSet.add_eq_model`, `OSet.discard_eq_model`: the registry model's `OSet.add` / `OSet.discard` ARE `OrderedSet.add` / `discard`;
+  * `orderedset_wf`: no sequence of add / discard / update / union / - / | / clear from `OrderedSet()` yields a duplicate — this is
+    the hypothesis `UsageNodup` of `InvR` and the typed-set part of `Clause.nodup` for every state the code can build (the theorems
+    above prove their preservation inside the registry model; `orderedset_wf` says the representation cannot break them);
+  * `add_order`, `discard_sublist`, `discard_absent`, `ofList_self`: insertion order is kept, a copy has the same order, discarding
+    an absent element is a no-op (what `Registry.remove_usage` / `__delitem__` rely on);
+  * `update_eq_foldl`, `mem_update`, `mem_union`, `mem_sub`, `mem_or`, `eq_iff`: `update` is a fold of `add`; union / difference /
+    `|` by membership (what `Rule.requires()` and `AndCondition.requires()` compute); `==` ignores order.
+The OrderedDict operations (`d[k] = v`, `pop(k, None)`, `in`, iteration) are `AL.set / del / has / keys`; the same differential run
+compares them with `collections.OrderedDict`; their laws are `AL.get?_set`, `AL.get?_del`, `AL.nodup_keys_set`, `AL.nodup_keys_del`. -/
+
+theorem orderedset_no_duplicates {α : Type} [DecidableEq α] (s : OrderedSetModel.OSetM α) (h : OrderedSetModel.Reach s) :
+    s.data.Nodup := OrderedSetModel.orderedset_wf s h
+
+theorem registry_oset_is_orderedset (l : List User) (u : User) :
+    OSet.add l u = (OrderedSetModel.add ⟨l⟩ u).data ∧ OSet.discard l u = (OrderedSetModel.discard ⟨l⟩ u).data :=
+  ⟨OSet.add_eq_model l u, OSet.discard_eq_model l u⟩
 
 end Wntr.Registry
